@@ -97,17 +97,23 @@ def rules(ctx, db):
                 # the replaced-out value is what gets woken
                 dst = t["dst"]["l"]
                 wakes = calls(f, r"^core::task::wake::Waker::wake$")
-                okr = bool(wakes) and f.cfg.dominates(bb, wakes[0][0])
+                # ... or handed to an iterator adaptor as a function item: `.for_each(Waker::wake)`
+                wakes += [(b2, t2) for b2, t2 in f.calls() if any("Waker::wake" in (a.get("k") or "") for a in t2.get("args", []) if "k" in a)]
+                okr = bool(wakes) and all(f.cfg.dominates(bb, wb) for wb, _ in wakes)
         ctx.ob("R2", "lower-part-is-woken", okr,
                "the part kept in the wheel is split_off's result (keys >= split key); the part replaced out (keys < split "
                "key, i.e. expired) is the one whose wakers are woken — never the pending part", f)
     pt = db.methods(self_adt=TR, name="poll_timer", trait="")
     for f in pt:
         rd = [bi for bi, si, s in f.stmts() if s.get("r", {}).get("k") == "agg" and s["r"].get("adt") == "core::task::poll::Poll" and s["r"].get("var") == "Ready" and s["a"]["l"] == 0]
-        ctx.ob("R2", "ready-iff-key-left-wheel", bool(rd) and all(guarded_by_bool(f, b, r"TimerRuntime::is_completed$", True) is not None for b in rd),
+        def _completed(b, want):
+            # `is_completed(key)` or, inlined, `!wheel.contains_key(key)`
+            return guarded_by_bool(f, b, r"TimerRuntime::is_completed$", want) is not None or \
+                guarded_by_bool(f, b, r"BTreeMap::<K, V, A>::contains_key$|BTreeMap::<.*>::contains_key$", not want) is not None
+        ctx.ob("R2", "ready-iff-key-left-wheel", bool(rd) and all(_completed(b, True) for b in rd),
                "a timer future completes only when its key is no longer in the wheel (woken or cancelled)", f)
         uw = [b for b, _ in calls(f, r"TimerRuntime::update_waker$")]
-        ctx.ob("R2", "pending-registers-waker", bool(uw) and all(guarded_by_bool(f, b, r"TimerRuntime::is_completed$", False) is not None for b in uw),
+        ctx.ob("R2", "pending-registers-waker", bool(uw) and all(_completed(b, False) for b in uw),
                "a pending timer records the current waker", f)
     ic = db.methods(self_adt=TR, name="is_completed", trait="")
     for f in ic:
